@@ -445,6 +445,13 @@ def finish(prop, tier, seed, runner, level, rule, trusted, floors=None, extra_co
     for (r, v) in (extra_viol or []):
         hit = next((k for k in known if finding_matches(k, prop, r, v)), None)
         (known_hits.setdefault(hit['id'], []) if hit else violations).append((r, v))
+    # obligations that fail by a LISTED known finding are reported under their own key and not as part of the proved set
+    kf_seen, n_known_obl = set(), 0
+    for hits in known_hits.values():
+        for r, v in hits:
+            if id(r) not in kf_seen and r.get('obligations') is not None:
+                kf_seen.add(id(r)); n_known_obl += max(0, r.get('obligations', 0) - r.get('discharged', 0))
+    n_obl -= n_known_obl
     os.makedirs(os.path.join(VERIF, 'evidence'), exist_ok=True)
     replay_dir = os.path.join(VERIF, 'evidence', 'replay')
     os.makedirs(replay_dir, exist_ok=True)
@@ -531,6 +538,7 @@ def finish(prop, tier, seed, runner, level, rule, trusted, floors=None, extra_co
     if extra_cov:
         cov.update(extra_cov)
     cov['undecided_obligations_not_counted'] = n_und_obl
+    cov['known_finding_obligations_not_counted'] = n_known_obl
     ev = {'property_id': prop, 'tier': tier, 'seed': seed, 'level': level, 'coverage': cov,
           'assumptions': assumptions or [], 'wall_s': round(time.time() - runner.t0, 2), 'violations': len(violations)}
     if not os.environ.get('VERIF_NO_EVIDENCE') and getattr(runner, 'coverage', None):
